@@ -140,16 +140,34 @@ def run(tier, logdir):
                         p = P.path_to(f, bb)
                         if p is not None:
                             cands.append((name, s, origin))
-        # U2
+        # U2 (over the call graph, 3 levels deep, closures included)
+        import props.C08 as C08
+        an = C08.Analysis(mir)
+
+        def reaches_vlc(fn, depth=0, seen=None):
+            seen = seen or set()
+            if fn.name in seen or depth > 3:
+                return False
+            seen.add(fn.name)
+            for st in fn.blocks.values():
+                for s_ in st:
+                    c = CALL_RE.match(s_)
+                    if not c:
+                        continue
+                    cal = re.sub(r"::<.*?>", "", c.group(2).strip())
+                    if cal.endswith("visual_line_count"):
+                        return True
+                    tgt = an.resolve(c.group(2).strip(), len(M.split_top(c.group(3))) if c.group(3).strip() else 0)
+                    if tgt is not None and reaches_vlc(tgt.f, depth + 1, seen):
+                        return True
+            for g in mir.fns:
+                if g.name.startswith(fn.name + "::{closure") and reaches_vlc(g, depth + 1, seen):
+                    return True
+            return False
         u2 = []
         for meth in ("mark_zombie", "draw"):
             f = mir.find(meth, self_ty="&mut MultiState")
-            calls = [re.sub(r"::<.*?>", "", CALL_RE.match(s).group(2).strip()) for st in f.blocks.values() for s in st if CALL_RE.match(s)]
-            body = " ".join(s for st in f.blocks.values() for s in st)
-            has = any(c.endswith("visual_line_count") for c in calls) or "visual_line_count" in body
-            closures = [g for g in mir.fns if g.name.startswith(f.name + "::{closure")]
-            has = has or any("visual_line_count" in " ".join(s for st in g.blocks.values() for s in st) for g in closures)
-            if not has:
+            if not reaches_vlc(f):
                 u2.append("MultiState::%s does not obtain a frame height from visual_line_count" % meth)
         problems = ["%s builds a VisualLines from %s (`%s`)" % (n, o, s[:90]) for n, s, o in cands] + u2
         label = "row accounting outside draw_to_term is kept in wrapped rows: %d VisualLines conversions inspected, mark_zombie / MultiState::draw measure frames with visual_line_count" % nconv
